@@ -113,6 +113,8 @@ def _run_case(case):
     with dtype_mode(True):
         b = zoo.instantiate(case)
         m = b.module
+        import copy
+        m_fresh = copy.deepcopy(m)      # never called: order 2 starts with inverse() on an object whose caches are still empty
         n = case["inp"]["n"]
         site = case["spec"]["t"]
         X, special = zoo.gen_inputs(b, n, case["inp"]["seed"], case["inp"]["special"], case["inp"]["scale"], dom=case["dom"],
@@ -222,7 +224,7 @@ def _run_case(case):
                 return res, b
             try:
                 with torch.no_grad():
-                    x0, ldi0 = m.inverse(Y, ctx)
+                    x0, ldi0 = m_fresh.inverse(Y, ctx)
             except Exception as e:
                 if type(e).__name__ == "InputOutsideDomain" and case["spec"]["t"] == "composite":
                     res.labels.append("composite_boundary_rounding")
@@ -242,7 +244,7 @@ def _run_case(case):
                 return res, b
             if zoo.chain_moderate(b, x0, ctx, case["spec"]) and float(x0.abs().max()) < 1e6:
                 with torch.no_grad():
-                    y1, ldf1 = m(x0, ctx)
+                    y1, ldf1 = m_fresh(x0, ctx)
                 if not finite(y1, ldf1):
                     res.inconclusive += 1
                     return res, b
